@@ -78,12 +78,21 @@ static int vf_fclose(FILE *fh) { (void) fh; f_closed++; return 0; }
 static char *vf_setlocale(int c, const char *l) { (void) c; (void) l; return NULL; }
 static ssize_t vf_getline(char **lineptr, size_t *n, FILE *fh)
 {
+    /* glibc semantics: a NULL pointer OR A ZERO SIZE means "no buffer yet" (a fresh one is allocated, the old
+     * pointer is NOT freed); a buffer announced as too small is reallocated (old one released) */
     (void) fh;
     if (f_next >= f_nlines) return -1;
     unsigned len = f_rawlen[f_next];
-    free(*lineptr);                       /* the tool's capacity variable is unreliable: always a fresh buffer */
-    char *p = malloc(CAP);
-    VF_ASSUME(p != NULL);
+    char *p;
+    if (*lineptr == NULL || *n == 0) {
+        p = malloc(CAP);
+        VF_ASSUME(p != NULL);
+    } else if (*n < (size_t) len + 1) {
+        free(*lineptr);
+        p = malloc(CAP);
+        VF_ASSUME(p != NULL);
+    } else
+        p = *lineptr;
     for (unsigned i = 0; i < CAP; i++) p[i] = (i < len) ? (char) f_line[f_next][i] : 0;
     *lineptr = p;
     *n = CAP;
